@@ -245,13 +245,22 @@ Theorem C05_delegate_silent : forall f pop i,
 Proof. exact delegate_silent. Qed.
 Print Assumptions C05_delegate_silent.
 
-(* ---- one dispatcher object reused: every evaluation is a function of the arguments of the last
-   dispatch; dispatching without a timer removes an earlier (expired) time limit *)
+(* ---- one dispatcher object reused (steps: Dispatch, Evaluate, SetDelegate, Aborted): every
+   evaluation is a function of the arguments of the last dispatch and of the delegate in force;
+   dispatching without a timer removes an earlier (expired) time limit *)
 Theorem C05_session_last_dispatch : forall par d st before o t pops,
   run_session par d st (before ++ Dispatch o t :: map Evaluate pops) =
-  run_session par d st before ++ map (evaluate_fresh par o d (timer_or_forever t)) pops.
+  run_session par d st before ++ map (evaluate_fresh par o (final_delegate d before) (timer_or_forever t)) pops.
 Proof. exact session_last_dispatch. Qed.
 Print Assumptions C05_session_last_dispatch.
+
+(* a run with an enabled delegate aborted by an escaping exception (its cache is left behind), the
+   delegate switched off, the same population evaluated again: the left-over cache is not used *)
+Theorem C05_session_stale_cache_unused : forall par f st pop,
+  run_session par (Some f) st [Aborted pop; SetDelegate None; Evaluate pop] =
+  [evaluate_fresh par (s_objective st) None (s_timer st) pop].
+Proof. exact session_stale_cache_unused. Qed.
+Print Assumptions C05_session_stale_cache_unused.
 
 Theorem C05_session_timer_reset : forall par d st o1 o2 pop1 pop2,
   run_session par d st [Dispatch o1 (Some (fun _ => true)); Evaluate pop1; Dispatch o2 None; Evaluate pop2] =
